@@ -31,6 +31,119 @@ pub enum WOp12 {
 pub enum Mode12 {
     Write { word: Wd, ops: Vec<WOp12> },
     Read { kind: RdKind, backend: RdBackend, image: Vec<u8>, ops: Vec<ROp> },
+    /// scale: one slice / buffer of 512 KiB or more (pseudo-random bytes derived from `seed`)
+    /// at a bit offset given by the raw fields `off`
+    Big { write: bool, word: Wd, kind: RdKind, off: Vec<(u64, usize)>, len: usize, seed: u64, all: bool },
+}
+
+pub const BIG_LENS: [usize; 7] = [524_287, 524_288, 524_289, 524_296, 532_291, 1_048_576, 1_048_583];
+
+fn big_data(seed: u64, len: usize) -> Vec<u8> {
+    let mut r = Rng::new(seed);
+    let mut out = Vec::with_capacity(len + 8);
+    while out.len() < len {
+        out.extend_from_slice(&r.next().to_le_bytes());
+    }
+    out.truncate(len);
+    out
+}
+
+fn first_diff(a: &[u8], b: &[u8]) -> String {
+    let k = a.iter().zip(b.iter()).position(|(x, y)| x != y).unwrap_or(a.len().min(b.len()));
+    let w = |x: &[u8]| format!("{:02x?}", &x[k.min(x.len())..(k + 12).min(x.len())]);
+    format!("lengths {} / {} bytes, first difference at byte {}: {} vs {}", a.len(), b.len(), k, w(a), w(b))
+}
+
+#[allow(clippy::too_many_arguments)]
+fn run_big(e: En, write: bool, word: Wd, kind: RdKind, off: &[(u64, usize)], len: usize, seed: u64, all: bool, ctx: &mut Ctx) {
+    let data = big_data(seed, len);
+    let mut model = BitModel::new();
+    for (v, n) in off {
+        model.push_bits(e, *v, *n);
+    }
+    let offbits = model.len();
+    model.push_bytes(e, &data);
+    ctx.ops += 2 + off.len() as u64;
+    if write {
+        ctx.step(vec![format!("e={:?}", e), format!("word={:?}", word), "op=io_write".into(), "scale=512KiB".into()]);
+        let (w, h) = AnyWriter::new(e, word, &WrBackend::Rec { refuse_at: None });
+        let mut w = ManuallyDrop::new(w);
+        for (v, n) in off {
+            if !matches!(guard(|| w.write_bits(*v, *n)), Ok(Ok(_))) {
+                return ctx.fail("C12.spurious_error", "write_bits failed".into());
+            }
+        }
+        let r = if all { guard(|| w.io_write_all(&data).map(|_| data.len())) } else { guard(|| w.io_write(&data)) };
+        match r {
+            Ok(Ok(k)) => {
+                ctx.ev(k as u64);
+                if k != len {
+                    return ctx.fail("C12.write_count", format!("io::Write::write of a {}-byte slice reported {} bytes", len, k));
+                }
+            }
+            Ok(Err(er)) => return ctx.fail("C12.spurious_error", format!("io write of {} bytes failed: {}", len, er)),
+            Err(p) => return ctx.fail("C12.panic", format!("io::Write::write of a {}-byte slice at bit offset {} panicked: {}", len, offbits, p)),
+        }
+        model.push_bits(e, 0x2B5, 10);
+        match guard(|| {
+            w.write_bits(0x2B5, 10)?;
+            w.flush()
+        }) {
+            Ok(Ok(_)) => {}
+            _ => return ctx.fail("C12.spurious_error", "write after the slice failed".into()),
+        }
+        model.pad_to_multiple(word.bits());
+        let exp = model.to_bytes(e);
+        let got = h.delivered_bytes();
+        ctx.ev(crate::rng::fnv1a(&got));
+        if got != exp {
+            return ctx.fail(
+                "C12.write_image",
+                format!("after io::Write::write of a {}-byte slice at bit offset {} and a 10-bit marker: image vs expected: {}", len, offbits, first_diff(&got, &exp)),
+            );
+        }
+        ctx.progressed = true;
+        ctx.probe("c12.write_slice_512KiB");
+        ctx.sig(&[1212, e as u64, word as u64, (offbits % word.bits()) as u64, (len % 8) as u64, all as u64]);
+        let _ = guard(|| unsafe { ManuallyDrop::drop(&mut w) });
+    } else {
+        ctx.step(vec![format!("e={:?}", e), format!("reader={:?}", kind), "op=io_read".into(), "scale=512KiB".into()]);
+        model.push_bits(e, 0xA5C3, 16);
+        model.pad_to_multiple(kind.word_bits());
+        let image = model.to_bytes(e);
+        let (mut rd, _h) = AnyReader::new(e, kind, &RdBackend::MemStrict, &image);
+        for (v, n) in off {
+            match guard(|| rd.read_bits(*n)) {
+                Ok(Ok(y)) if y == *v => {}
+                _ => return ctx.fail("C12.read_bits", "fixed-width read before the byte read returned a wrong value".into()),
+            }
+        }
+        let mut buf = vec![0xEEu8; len];
+        match guard(|| rd.io_read(&mut buf)) {
+            Ok(Ok(k)) => {
+                ctx.ev(k as u64);
+                ctx.ev(crate::rng::fnv1a(&buf));
+                if k != len {
+                    return ctx.fail("C12.io_read_count", format!("io::Read::read of a {}-byte buffer returned {}", len, k));
+                }
+                if buf != data {
+                    return ctx.fail(
+                        "C12.io_read_bytes",
+                        format!("io::Read::read({} bytes) at bit {}: produced vs next stream bytes: {}", len, offbits, first_diff(&buf, &data)),
+                    );
+                }
+            }
+            Ok(Err(er)) => return ctx.fail("C12.spurious_error", format!("io read of {} bytes failed: {}", len, er)),
+            Err(p) => return ctx.fail("C12.panic", format!("io::Read::read of a {}-byte buffer at bit offset {} panicked: {}", len, offbits, p)),
+        }
+        match guard(|| rd.read_bits(16)) {
+            Ok(Ok(0xA5C3)) => {}
+            other => return ctx.fail("C12.read_bits", format!("after io::Read::read({} bytes) the next 16 bits read {:?}, expected 0xa5c3", len, other)),
+        }
+        ctx.progressed = true;
+        ctx.probe("c12.read_buffer_512KiB");
+        ctx.sig(&[1213, e as u64, kind as u64, (offbits % kind.word_bits()) as u64, (len % 8) as u64]);
+    }
 }
 
 #[derive(Clone, Debug, Serialize, Deserialize)]
@@ -181,6 +294,29 @@ impl Family for C12 {
 
     fn gen(rng: &mut Rng, _tier: Tier, index: u64) -> S12 {
         let e = if index % 2 == 0 { En::BE } else { En::LE };
+        if index % 1500 == 11 || index % 1500 == 12 {
+            let word = *rng.pick(&Wd::ALL);
+            let kind = *rng.pick(&RdKind::ALL);
+            let mut off = Vec::new();
+            let mut left = rng.usize_range(0, 2 * word.bits().max(kind.word_bits()));
+            while left > 0 {
+                let n = left.min(rng.usize_range(1, 64));
+                off.push((crate::items::mask(rng.next(), n), n));
+                left -= n;
+            }
+            return S12 {
+                e,
+                mode: Mode12::Big {
+                    write: rng.chance(1, 2),
+                    word,
+                    kind,
+                    off,
+                    len: *rng.pick(&BIG_LENS),
+                    seed: rng.next(),
+                    all: rng.chance(1, 2),
+                },
+            };
+        }
         if (index / 2) % 2 == 0 {
             let word = Wd::ALL[((index / 4) % 5) as usize];
             let wbits = word.bits();
@@ -267,6 +403,7 @@ impl Family for C12 {
     fn exec(s: &S12, ctx: &mut Ctx) {
         match &s.mode {
             Mode12::Write { word, ops } => run_write(s, *word, ops, ctx),
+            Mode12::Big { write, word, kind, off, len, seed, all } => run_big(s.e, *write, *word, *kind, off, *len, *seed, *all, ctx),
             Mode12::Read { kind, backend, image, ops } => {
                 for op in ops {
                     if let ROp::Bytes(n) = op {
@@ -311,6 +448,20 @@ impl Family for C12 {
                             }
                         }
                         _ => {}
+                    }
+                }
+            }
+            Mode12::Big { write, word, kind, off, len, seed, all } => {
+                let mk = |off: Vec<(u64, usize)>, len: usize| S12 {
+                    e: s.e,
+                    mode: Mode12::Big { write: *write, word: *word, kind: *kind, off, len, seed: *seed, all: *all },
+                };
+                if !off.is_empty() {
+                    out.push(mk(Vec::new(), *len));
+                }
+                for l in [524_288usize, 65_536 * 8 + 8, 1 << 16, 4096, 64, 8] {
+                    if l < *len {
+                        out.push(mk(off.clone(), l));
                     }
                 }
             }
@@ -367,6 +518,8 @@ impl Family for C12 {
             "c12.write_at_unaligned_offset",
             "c12.read_empty_buffer",
             "c12.read_len_not_multiple_of_8",
+            "c12.write_slice_512KiB",
+            "c12.read_buffer_512KiB",
         ]
     }
 
